@@ -141,6 +141,41 @@ def snap_num(n):
 
 
 @spec
+def ein_src(e):
+    return e.get('src', '')
+
+
+@spec
+def ein_dst(e):
+    return e.get('dst', '')
+
+
+@spec
+def ein_rel(e):
+    return e.get('rel', 'coact')
+
+
+@spec
+def ein_id(e):
+    """canonical key of an input edge record (eid3 = the opaque view of snapshot._edge_id)"""
+    return eid3(ein_src(e), ein_dst(e), ein_rel(e))
+
+
+@spec
+def edge_sanitized(o, e, wmin, wmax, eps):
+    """o is the record `_sanitize_gel_for_write` emits for the input edge record e"""
+    return (o['src'] == ein_src(e) and o['dst'] == ein_dst(e) and o['rel'] == ein_rel(e)
+            and o['weight'] == san_weight(e.get('weight', 0.0), wmin, wmax, eps)
+            and o['updated_at'] == e.get('updated_at') and same_value(o['attrs'], e.get('attrs', {})))
+
+
+@spec
+def wkey(rec):
+    """store key of an exported weight record"""
+    return (rec['target_kind'], rec['target_id'], rec['attr'])
+
+
+@spec
 def san_weight(w, wmin, wmax, eps):
     """the weight `_sanitize_gel_for_write` stores for an input weight w"""
     return ite(absr(round6(clampf(w, wmin, wmax))) < eps, 0.0, round6(clampf(w, wmin, wmax)))
